@@ -126,7 +126,10 @@ fn exec_inner(c: &Case) -> Outcome {
             Some(Y::Plain) => Some(CoroutineState::Suspend((), 0)),
             Some(Y::Until) => Some(CoroutineState::Suspend((), ts_for(ci, yi))),
             Some(Y::Cancel) => Some(CoroutineState::Cancelled),
-            Some(Y::SysPlain | Y::SysUntil | Y::SysCancel) => None,
+            // a cancel requested in a syscall state is honoured like any other cancel request
+            // (the coroutine must never be resumed again: Suspender::cancel does not return)
+            Some(Y::SysCancel) => Some(CoroutineState::Cancelled),
+            Some(Y::SysPlain | Y::SysUntil) => None,
         };
         match want {
             Some(w) => {
@@ -139,6 +142,7 @@ fn exec_inner(c: &Case) -> Outcome {
                         (Some(Y::Plain), CoroutineState::Suspend((), _)) => "plain-suspend-reports-foreign-wakeup-time",
                         (Some(Y::Until), CoroutineState::Suspend((), _)) => "delay-reports-foreign-wakeup-time",
                         (Some(Y::Cancel), _) => "cancel-request-not-honoured",
+                        (Some(Y::SysCancel), _) => "cancel-request-in-syscall-state-not-honoured",
                         _ => "wrong-result",
                     };
                     o.set_fail(
@@ -149,6 +153,10 @@ fn exec_inner(c: &Case) -> Outcome {
                 }
                 if matches!(r, CoroutineState::Complete(_) | CoroutineState::Cancelled) {
                     dead[ci] = true;
+                }
+                if matches!(c.cos[ci].get(yi), Some(Y::SysCancel)) {
+                    stale_request_pending = true;
+                    sys_requests += 1;
                 }
             }
             None => {
